@@ -127,3 +127,67 @@ Definition inject (k : prop_kind) (c : span_ctx) : carrier :=
 Definition extract_carrier (k : prop_kind) (cr : carrier) : option span_ctx :=
   match k with KSingle | KMulti => b3_extract_carrier cr | KJaeger => jaeger_extract_carrier cr end.
 Definition roundtrip (k : prop_kind) (c : span_ctx) : option span_ctx := extract_carrier k (inject k c).
+
+(* ------------------------------------------------------------------ extraction into a destination context::Context
+   A Context is a list of bindings, newest first: SetValue prepends a node, GetValue returns the first node with the key.
+   Unrelated values are modelled by integers (the driver stores int64_t values under "verif.k<i>"). *)
+Inductive cval := VSpan (c : span_ctx) | VInt (z : Z).
+Definition context := list (bytes * cval).
+Definition k_span : bytes := bs "active_span".        (* trace::kSpanKey *)
+
+Fixpoint ctx_get (k : bytes) (c : context) : option cval :=
+  match c with
+  | [] => None
+  | (k', v) :: c' => if bytes_eqb k' k then Some v else ctx_get k c'
+  end.
+(* trace::SetSpan / trace::GetSpan *)
+Definition set_span (c : context) (s : span_ctx) : context := (k_span, VSpan s) :: c.
+Definition get_span (c : context) : span_ctx :=
+  match ctx_get k_span c with Some (VSpan s) => s | _ => invalid_ctx end.
+
+(* ExtractImpl of one propagator on a carrier *)
+Definition extract_impl_carrier (k : prop_kind) (cr : carrier) : span_ctx :=
+  match k with
+  | KSingle | KMulti =>
+      b3_extract_impl (carrier_get k_b3 cr) (carrier_get k_xtid cr) (carrier_get k_xsid cr) (carrier_get k_xsampled cr)
+  | KJaeger => jaeger_extract_impl (carrier_get k_uber cr)
+  end.
+
+(* one propagator, or CompositePropagator{B3Propagator, B3PropagatorMultiHeader, JaegerPropagator} *)
+Inductive xkind := XOne (k : prop_kind) | XComposite.
+Definition composite_members : list prop_kind := [KSingle; KMulti; KJaeger].
+
+(* Inject into an empty map carrier (dumped in key order: X-B3-* < b3 < uber-trace-id) *)
+Definition inject_x (x : xkind) (c : span_ctx) : carrier :=
+  match x with
+  | XOne k => inject k c
+  | XComposite => b3_inject_multi c ++ b3_inject_single c ++ jaeger_inject c
+  end.
+(* Extract(carrier, dest): the composite threads the context through its members in order *)
+Definition extract1 (cr : carrier) (dest : context) (k : prop_kind) : context :=
+  extract_into set_span dest (extract_impl_carrier k cr).
+Definition extract_x (x : xkind) (cr : carrier) (dest : context) : context :=
+  match x with
+  | XOne k => extract1 cr dest k
+  | XComposite => fold_left (extract1 cr) composite_members dest
+  end.
+Definition roundtrip_into (x : xkind) (c : span_ctx) (dest : context) : context := extract_x x (inject_x x c) dest.
+
+(* the destination the driver builds: [n] unrelated integer values, then possibly a span *)
+Definition key_i (i : nat) : bytes := bs "verif.k" ++ [n2b (48 + N.of_nat i)%N].
+Fixpoint dest_keys (n : nat) : context :=
+  match n with 0 => [] | S m => (key_i n, VInt (100 + Z.of_nat n)) :: dest_keys m end.
+Definition make_dest (d : option span_ctx) (n : nat) : context :=
+  match d with Some s => set_span (dest_keys n) s | None => dest_keys n end.
+(* how many of the unrelated values are still readable with their value *)
+Fixpoint keys_intact (n : nat) (c : context) : nat :=
+  match n with
+  | 0 => 0
+  | S m => (match ctx_get (key_i n) c with
+            | Some (VInt z) => if Z.eqb z (100 + Z.of_nat n) then 1 else 0
+            | _ => 0
+            end) + keys_intact m c
+  end.
+(* what the driver sees of the span: None when the returned context has no new binding *)
+Definition observed_span (dest out : context) : option span_ctx :=
+  if Nat.eqb (length out) (length dest) then None else Some (get_span out).
